@@ -21,3 +21,379 @@ package base
 //@   ensures[C05] (result < 0) == (selfcall(b, a) > 0)
 //@   ensures[C05] forall(c, "ti/base.Sig", result < 0 && selfcall(b, c) < 0 ==> selfcall(a, c) < 0)
 //@   witness post:0.0#0 "class A\n  def x\n    1\n  end\n\n  def self.x\n    \"s\"\n  end\nend\n" args "--llm-define" expect-varies "6"
+
+//@ # ---- C01: panic-freedom without any precondition ----
+//@ # Every dereference, index, slice, type assertion, map write, division and explicit panic in these
+//@ # functions (and in the small callees inlined into them) is proved unreachable for all inputs,
+//@ # including nil receivers where the code tests for them.
+//@ func (*ti/base.T).GetBlockParameters
+//@   safe
+
+//@ func (*ti/base.T).GetPower
+//@   safe
+
+//@ func (*ti/base.T).GetType
+//@   safe
+
+//@ func (*ti/base.T).HasDefault
+//@   safe
+
+//@ func (*ti/base.T).IsAmpersandPrefix
+//@   safe
+
+//@ func (*ti/base.T).IsAndDotIdentifier
+//@   safe
+
+//@ func (*ti/base.T).IsAnyType
+//@   safe
+
+//@ func (*ti/base.T).IsArrayType
+//@   safe
+
+//@ func (*ti/base.T).IsAsteriskPrefix
+//@   safe
+
+//@ func (*ti/base.T).IsBeforeEvaluateAsteriskPrefix
+//@   safe
+
+//@ func (*ti/base.T).IsBeforeEvaluateAtmarkPrefix
+//@   safe
+
+//@ func (*ti/base.T).IsBlockType
+//@   safe
+
+//@ func (*ti/base.T).IsBoolIdentifier
+//@   safe
+
+//@ func (*ti/base.T).IsBuiltin
+//@   safe
+
+//@ func (*ti/base.T).IsBuiltinMethod
+//@   safe
+
+//@ func (*ti/base.T).IsCloseParentheses
+//@   safe
+
+//@ func (*ti/base.T).IsCommaIdentifier
+//@   safe
+
+//@ func (*ti/base.T).IsConstIdentifier
+//@   safe
+
+//@ func (*ti/base.T).IsConstType
+//@   safe
+
+//@ func (*ti/base.T).IsDotIdentifier
+//@   safe
+
+//@ func (*ti/base.T).IsDoubleAsteriskPrefix
+//@   safe
+
+//@ func (*ti/base.T).IsEmpty
+//@   safe
+
+//@ func (*ti/base.T).IsEndIdentifier
+//@   safe
+
+//@ func (*ti/base.T).IsEqualIdentifier
+//@   safe
+
+//@ func (*ti/base.T).IsExclamationIdentifier
+//@   safe
+
+//@ func (*ti/base.T).IsHashType
+//@   safe
+
+//@ func (*ti/base.T).IsIdentifierType
+//@   safe
+
+//@ func (*ti/base.T).IsInfferedFromCall
+//@   safe
+
+//@ func (*ti/base.T).IsKeyIdentifier
+//@   safe
+
+//@ func (*ti/base.T).IsKeyValueType
+//@   safe
+
+//@ func (*ti/base.T).IsNameSpaceIdentifier
+//@   safe
+
+//@ func (*ti/base.T).IsNewLineIdentifier
+//@   safe
+
+//@ func (*ti/base.T).IsNotPowerDown
+//@   safe
+
+//@ func (*ti/base.T).IsOpenParentheses
+//@   safe
+
+//@ func (*ti/base.T).IsOperatorPower
+//@   safe
+
+//@ func (*ti/base.T).IsPostFixToken
+//@   safe
+
+//@ func (*ti/base.T).IsPredicateIdentifier
+//@   safe
+
+//@ func (*ti/base.T).IsQuestionIdentifier
+//@   safe
+
+//@ func (*ti/base.T).IsRangeType
+//@   safe
+
+//@ func (*ti/base.T).IsReadOnly
+//@   safe
+
+//@ func (*ti/base.T).IsRefferenceAbleT
+//@   safe
+
+//@ func (*ti/base.T).IsRefferenceSquareT
+//@   safe
+
+//@ func (*ti/base.T).IsStringType
+//@   safe
+
+//@ func (*ti/base.T).IsSymbolIdentifier
+//@   safe
+
+//@ func (*ti/base.T).IsSymbolType
+//@   safe
+
+//@ func (*ti/base.T).IsTargetClassObject
+//@   safe
+
+//@ func (*ti/base.T).IsTargetIdentifier
+//@   safe
+
+//@ func (*ti/base.T).IsTargetIdentifiers
+//@   safe
+
+//@ func (*ti/base.T).IsTargetPrefixIdentifier
+//@   safe
+
+//@ func (*ti/base.T).IsTransformTargetIdentifier
+//@   safe
+
+//@ func (*ti/base.T).IsUnionType
+//@   safe
+
+//@ func (*ti/base.T).IsUnknownType
+//@   safe
+
+//@ func (*ti/base.T).IsUpperPrefix
+//@   safe
+
+//@ func (*ti/base.T).IsVariableIdentifier
+//@   safe
+
+//@ func (*ti/base.T).ToString
+//@   safe
+
+//@ func ti/base.GenId
+//@   safe
+
+//@ func ti/base.GetConstValueT
+//@   safe
+
+//@ func ti/base.GetSortedTSignatures
+//@   safe
+
+//@ func ti/base.GetSortedTSignaturesByClass
+//@   safe
+
+//@ func ti/base.IsAmpersandPrefix
+//@   safe
+
+//@ func ti/base.IsAsteriskPrefix
+//@   safe
+
+//@ func ti/base.IsAtmarkPrefix
+//@   safe
+
+//@ func ti/base.IsDoubleAsteriskPrefix
+//@   safe
+
+//@ func ti/base.IsEqualPrefix
+//@   safe
+
+//@ func ti/base.IsKeySuffix
+//@   safe
+
+//@ func ti/base.IsSetterSuffix
+//@   safe
+
+//@ func ti/base.IsSymbol
+//@   safe
+
+//@ func ti/base.IsUpper
+//@   safe
+
+//@ func ti/base.MakeAnyArray
+//@   safe
+
+//@ func ti/base.MakeAnyFloat
+//@   safe
+
+//@ func ti/base.MakeAnyHash
+//@   safe
+
+//@ func ti/base.MakeAnyInt
+//@   safe
+
+//@ func ti/base.MakeAnyString
+//@   safe
+
+//@ func ti/base.MakeAnySymbol
+//@   safe
+
+//@ func ti/base.MakeArgument
+//@   safe
+
+//@ func ti/base.MakeArray
+//@   safe
+
+//@ func ti/base.MakeAsteriskUntyped
+//@   safe
+
+//@ func ti/base.MakeBlock
+//@   safe
+
+//@ func ti/base.MakeBlockResultArray
+//@   safe
+
+//@ func ti/base.MakeBlockWithResult
+//@   safe
+
+//@ func ti/base.MakeBool
+//@   safe
+
+//@ func ti/base.MakeBuiltinDefaultBlock
+//@   safe
+
+//@ func ti/base.MakeBuiltinDefaultBool
+//@   safe
+
+//@ func ti/base.MakeBuiltinDefaultFloat
+//@   safe
+
+//@ func ti/base.MakeBuiltinDefaultInt
+//@   safe
+
+//@ func ti/base.MakeBuiltinDefaultString
+//@   safe
+
+//@ func ti/base.MakeBuiltinDefaultUntyped
+//@   safe
+
+//@ func ti/base.MakeClass
+//@   safe
+
+//@ func ti/base.MakeConst
+//@   safe
+
+//@ func ti/base.MakeDoubleAsteriskKeyValue
+//@   safe
+
+//@ func ti/base.MakeFlatten
+//@   safe
+
+//@ func ti/base.MakeFloat
+//@   safe
+
+//@ func ti/base.MakeFloatArray
+//@   safe
+
+//@ func ti/base.MakeIdentifier
+//@   safe
+
+//@ func ti/base.MakeInt
+//@   safe
+
+//@ func ti/base.MakeIntArray
+//@   safe
+
+//@ func ti/base.MakeItem
+//@   safe
+
+//@ func ti/base.MakeKeyArray
+//@   safe
+
+//@ func ti/base.MakeKeyValue
+//@   safe
+
+//@ func ti/base.MakeKeyValueArray
+//@   safe
+
+//@ func ti/base.MakeMethod
+//@   safe
+
+//@ func ti/base.MakeNil
+//@   safe
+
+//@ func ti/base.MakeObject
+//@   safe
+
+//@ func ti/base.MakeObjectObject
+//@   safe
+
+//@ func ti/base.MakeOptionalUnify
+//@   safe
+
+//@ func ti/base.MakeOwner
+//@   safe
+
+//@ func ti/base.MakeRange
+//@   safe
+
+//@ func ti/base.MakeSelf
+//@   safe
+
+//@ func ti/base.MakeSelfArray
+//@   safe
+
+//@ func ti/base.MakeString
+//@   safe
+
+//@ func ti/base.MakeStringArray
+//@   safe
+
+//@ func ti/base.MakeSymbol
+//@   safe
+
+//@ func ti/base.MakeUnify
+//@   safe
+
+//@ func ti/base.MakeUnifyArgument
+//@   safe
+
+//@ func ti/base.MakeUnion
+//@   safe
+
+//@ func ti/base.MakeUnknown
+//@   safe
+
+//@ func ti/base.MakeUntyped
+//@   safe
+
+//@ func ti/base.NewT
+//@   safe
+
+//@ func ti/base.TypeToStringForSignature
+//@   safe
+
+//@ func ti/base.classMethodTFrameKey
+//@   safe
+
+//@ func ti/base.compareSigTie
+//@   safe
+
+//@ func ti/base.constTFrameKey
+//@   safe
+
+//@ func ti/base.methodTFrameKey
+//@   safe
+
+//@ func ti/base.valueTFrameKey
+//@   safe
